@@ -1049,6 +1049,10 @@ class Executor:
         while True:
             tag = frame + bb
             if tag in st.visited:
+                if getattr(self, "loop_is_stop", False) and frame == "":
+                    # the query asked for ONE iteration: re-entering a block ends the path (outcome "stop")
+                    self.paths.append(Path(st, "stop", "loop back-edge at %s" % bb, fn))
+                    return
                 raise Untranslatable("loop at %s in %s" % (bb, fn.name))
             st.visited = st.visited + (tag,)
             if len(self.paths) > self.max_paths:
